@@ -30,26 +30,33 @@ def KvStore.needFlush (s : KvStore) : Bool :=
   | some (_, false) => true
   | _ => false
 
-inductive KStep (v : KvVariant) : KSys → KSys → Prop
+/-- the step function of one caller -/
+abbrev KFun := KvStore → Nat → KThread → KvStore × Nat × KThread
+
+inductive KStepG (f : KFun) : KSys → KSys → Prop
   /-- a new call of GetOrCreateValue(bucket, name) begins -/
   | call (s : KSys) (b n : Nat) :
-      KStep v s { s with threads := s.threads ++ [{ bucket := b, name := n }] }
+      KStepG f s { s with threads := s.threads ++ [{ bucket := b, name := n }] }
   /-- caller `i` takes its next atomic step -/
   | thread (s : KSys) (i : Nat) (t : KThread) (h : s.threads[i]? = some t) :
-      KStep v s { s with store := (kstep v s.store s.ctr t).1, ctr := (kstep v s.store s.ctr t).2.1,
-                         threads := s.threads.set i (kstep v s.store s.ctr t).2.2 }
+      KStepG f s { s with store := (f s.store s.ctr t).1, ctr := (f s.store s.ctr t).2.1,
+                          threads := s.threads.set i (f s.store s.ctr t).2.2 }
   /-- PrepareFlush (on the worker goroutine), in either shape of its test -/
-  | prepare (s : KSys) (se : Bool) : KStep v s { s with store := s.store.prepareFlushE se }
+  | prepare (s : KSys) (se : Bool) : KStepG f s { s with store := s.store.prepareFlushE se }
   /-- Flush: needFlush() was true, the kv family commit is done -/
   | commit (s : KSys) (h1 : s.committed = false) (h2 : s.store.needFlush = true) :
-      KStep v s { s with store := s.store.commit, committed := true }
+      KStepG f s { s with store := s.store.commit, committed := true }
   /-- Flush: the locked tail -/
   | finish (s : KSys) (h : s.committed = true) :
-      KStep v s { s with store := s.store.finish, committed := false }
+      KStepG f s { s with store := s.store.finish, committed := false }
 
-inductive KReach (v : KvVariant) (s0 : KSys) : KSys → Prop
-  | init : KReach v s0 s0
-  | step {s s' : KSys} : KReach v s0 s → KStep v s s' → KReach v s0 s'
+inductive KReachG (f : KFun) (s0 : KSys) : KSys → Prop
+  | init : KReachG f s0 s0
+  | step {s s' : KSys} : KReachG f s0 s → KStepG f s s' → KReachG f s0 s'
+
+/-- lindb's order of the two lookups (memory maps first) -/
+abbrev KStep (v : KvVariant) := KStepG (kstep v)
+abbrev KReach (v : KvVariant) := KReachG (kstep v)
 
 /-- C09 "one and the same ID to all callers": two completed calls for one name got one id -/
 def KStable (s : KSys) : Prop :=
@@ -83,12 +90,12 @@ inductive KAct
   deriving Repr
 
 /-- one scheduled action; an action that is not enabled leaves the state as it is -/
-def kact (v : KvVariant) (s : KSys) : KAct → KSys
+def kactG (f : KFun) (s : KSys) : KAct → KSys
   | .call b n => { s with threads := s.threads ++ [{ bucket := b, name := n }] }
   | .thread i =>
     match s.threads[i]? with
-    | some t => { s with store := (kstep v s.store s.ctr t).1, ctr := (kstep v s.store s.ctr t).2.1,
-                         threads := s.threads.set i (kstep v s.store s.ctr t).2.2 }
+    | some t => { s with store := (f s.store s.ctr t).1, ctr := (f s.store s.ctr t).2.1,
+                         threads := s.threads.set i (f s.store s.ctr t).2.2 }
     | none => s
   | .prepare => { s with store := s.store.prepareFlushE false }
   | .prepareSwapEmpty => { s with store := s.store.prepareFlushE true }
@@ -96,34 +103,40 @@ def kact (v : KvVariant) (s : KSys) : KAct → KSys
     if s.committed = false ∧ s.store.needFlush = true then { s with store := s.store.commit, committed := true } else s
   | .finish => if s.committed = true then { s with store := s.store.finish, committed := false } else s
 
-def kexec (v : KvVariant) (s : KSys) (acts : List KAct) : KSys := acts.foldl (kact v) s
+def kexecG (f : KFun) (s : KSys) (acts : List KAct) : KSys := acts.foldl (kactG f) s
 
-theorem kact_reach {v : KvVariant} {s0 s : KSys} (r : KReach v s0 s) (a : KAct) : KReach v s0 (kact v s a) := by
+abbrev kact (v : KvVariant) := kactG (kstep v)
+abbrev kexec (v : KvVariant) := kexecG (kstep v)
+
+theorem kactG_reach {f : KFun} {s0 s : KSys} (r : KReachG f s0 s) (a : KAct) : KReachG f s0 (kactG f s a) := by
   cases a with
   | call b n => exact .step r (.call s b n)
   | thread i =>
-    simp only [kact]
+    simp only [kactG]
     cases h : s.threads[i]? with
     | none => exact r
     | some t => exact .step r (.thread s i t h)
   | prepare => exact .step r (.prepare s false)
   | prepareSwapEmpty => exact .step r (.prepare s true)
   | commit =>
-    simp only [kact]
+    simp only [kactG]
     by_cases h : s.committed = false ∧ s.store.needFlush = true
     · rw [if_pos h]; exact .step r (.commit s h.1 h.2)
     · rw [if_neg h]; exact r
   | finish =>
-    simp only [kact]
+    simp only [kactG]
     by_cases h : s.committed = true
     · rw [if_pos h]; exact .step r (.finish s h)
     · rw [if_neg h]; exact r
 
-theorem kexec_reach (v : KvVariant) (s0 : KSys) (acts : List KAct) : KReach v s0 (kexec v s0 acts) := by
-  unfold kexec
-  suffices h : ∀ s, KReach v s0 s → KReach v s0 (acts.foldl (kact v) s) from h s0 .init
+theorem kexecG_reach (f : KFun) (s0 : KSys) (acts : List KAct) : KReachG f s0 (kexecG f s0 acts) := by
+  unfold kexecG
+  suffices h : ∀ s, KReachG f s0 s → KReachG f s0 (acts.foldl (kactG f) s) from h s0 .init
   induction acts with
   | nil => intro s r; exact r
-  | cons a rest ih => intro s r; exact ih _ (kact_reach r a)
+  | cons a rest ih => intro s r; exact ih _ (kactG_reach r a)
+
+theorem kexec_reach (v : KvVariant) (s0 : KSys) (acts : List KAct) : KReach v s0 (kexec v s0 acts) :=
+  kexecG_reach (kstep v) s0 acts
 
 end LinVerif.IdAssign
